@@ -70,7 +70,7 @@ def run_case(ops):
                 elif op[0] == 3:
                     _, c, bases = op
                     cl = objs[c]
-                    cl.rawbases = [('zz_unresolved_%d' % i if b is None else objs[b].name, None)
+                    cl.rawbases = [('zz_unresolved_%d_%d' % (c, i) if b is None else objs[b].name, None)
                                    for i, b in enumerate(bases)]
                     cl._initialbases = [n for n, _ in cl.rawbases]
                     cl._initialbaseobjects = [None if b is None else objs[b] for b in bases]
